@@ -116,6 +116,14 @@ func (w *World) canon(v ssa.Value, d int) string {
 	case *ssa.Extract:
 		return w.canon(x.Tuple, d+1) + "#" + fmt.Sprint(x.Index)
 	case *ssa.Phi:
+		if w.phiVisiting == nil {
+			w.phiVisiting = map[*ssa.Phi]bool{}
+		}
+		if w.phiVisiting[x] {
+			return "φ"
+		}
+		w.phiVisiting[x] = true
+		defer delete(w.phiVisiting, x)
 		set := map[string]bool{}
 		for _, e := range x.Edges {
 			if e == x {
@@ -143,6 +151,15 @@ func (w *World) canon(v ssa.Value, d int) string {
 	case *ssa.TypeAssert:
 		return w.canon(x.X, d+1) + ".(" + typeStr(x.AssertedType) + ")"
 	case *ssa.Slice:
+		if a, ok := x.X.(*ssa.Alloc); ok && x.Low == nil && x.High == nil {
+			if elems, ok := varargElems(a); ok {
+				var ss []string
+				for _, e := range elems {
+					ss = append(ss, w.canon(e, d+1))
+				}
+				return "[" + strings.Join(ss, ", ") + "]"
+			}
+		}
 		s := w.canon(x.X, d+1) + "["
 		if x.Low != nil {
 			s += w.canon(x.Low, d+1)
@@ -267,8 +284,14 @@ func singleStore(a *ssa.Alloc) ssa.Value {
 				val = s.Val
 			}
 		case *ssa.UnOp, *ssa.DebugRef:
+		case *ssa.MakeClosure:
+			// captured by a closure: still a single-assignment variable when the
+			// closure never stores to the variable itself
+			if !closureLeavesVar(s, a) {
+				return nil
+			}
 		default:
-			// address escapes (FieldAddr, call argument, closure capture …): not a plain local
+			// address escapes (FieldAddr, call argument …): not a plain local
 			return nil
 		}
 	}
@@ -276,6 +299,72 @@ func singleStore(a *ssa.Alloc) ssa.Value {
 		return val
 	}
 	return nil
+}
+
+// varargElems: for the array that backs a variadic argument list (`new([N]T)`
+// filled by constant-index stores and sliced once), the stored elements.
+func varargElems(a *ssa.Alloc) ([]ssa.Value, bool) {
+	arr, ok := deref(a.Type()).Underlying().(*types.Array)
+	if !ok || a.Referrers() == nil {
+		return nil, false
+	}
+	elems := make([]ssa.Value, arr.Len())
+	for _, r := range *a.Referrers() {
+		switch x := r.(type) {
+		case *ssa.IndexAddr:
+			c, ok := x.Index.(*ssa.Const)
+			if !ok || x.Referrers() == nil {
+				return nil, false
+			}
+			i := int(c.Int64())
+			for _, rr := range *x.Referrers() {
+				st, ok := rr.(*ssa.Store)
+				if !ok || st.Addr != x || i >= len(elems) || elems[i] != nil {
+					return nil, false
+				}
+				elems[i] = st.Val
+			}
+		case *ssa.Slice, *ssa.DebugRef:
+		default:
+			return nil, false
+		}
+	}
+	for _, e := range elems {
+		if e == nil {
+			return nil, false
+		}
+	}
+	return elems, true
+}
+
+// closureLeavesVar: the closure created by mc binds alloc a; does its body
+// never store to the captured variable itself (nor pass it on)?
+func closureLeavesVar(mc *ssa.MakeClosure, a *ssa.Alloc) bool {
+	fn, ok := mc.Fn.(*ssa.Function)
+	if !ok {
+		return false
+	}
+	for i, b := range mc.Bindings {
+		if b != a || i >= len(fn.FreeVars) {
+			continue
+		}
+		fv := fn.FreeVars[i]
+		if fv.Referrers() == nil {
+			continue
+		}
+		for _, r := range *fv.Referrers() {
+			switch x := r.(type) {
+			case *ssa.UnOp, *ssa.DebugRef:
+			case *ssa.Store:
+				if x.Addr == fv {
+					return false
+				}
+			default:
+				return false
+			}
+		}
+	}
+	return true
 }
 
 // freeVarBinding finds the value bound to free variable fv when its function
